@@ -18,6 +18,12 @@ class ReplayDivergence(Exception):
     pass
 
 
+# code names whose frames are traced per bytecode instead of per line (a
+# read-modify-write such as ``self._generation += 1`` is one line but several
+# interruptible instructions)
+OPCODE_FUNCS = set()
+
+
 class Run:
     def __init__(self, bodies, prefix, watch):
         self.bodies = bodies
@@ -61,12 +67,14 @@ class Run:
         point = self._point
 
         def local(frame, event, arg):
-            if event == 'line' or event == 'return':
+            if event == 'line' or event == 'return' or event == 'opcode':
                 point(tid)
             return local
 
         def glob(frame, event, arg):
             if frame.f_code.co_filename in watch:
+                if frame.f_code.co_name in OPCODE_FUNCS:
+                    frame.f_trace_opcodes = True
                 point(tid)
                 return local
             return None
